@@ -71,8 +71,34 @@ proof fn lemma_header_attrs_ok()
      'spec': '''    ensures
         it_laws(r),
         it_rem(r).map_values(|g: &IppAttributeGroup| *g) == groups_with(self.sgroups(), tag),'''},
-    {'op': 'fn', 'path': 'IppAttributes::add', 'attrs': ['#[verifier::external_body]'],
-     'spec': '''    ensures abs_groups(*final(self)) == spec_add(abs_groups(*old(self)), tag, attribute.sname(), aval(attribute.sval())),'''},
+    # body verified (W10: the `iter_mut().find(..)` statement is rewritten to the index loop it stands for)
+    {'op': 'fn', 'path': 'IppAttributes::add',
+     'spec': '''    ensures c19(abs_groups(*final(self)) =~= spec_add(abs_groups(*old(self)), tag, attribute.sname(), aval(attribute.sval()))),''',
+     'w10': [{'spec': '''
+            invariant
+                w10_i <= w10_v.len(), w10_v@ == old(self).sgroups(),
+                forall|j: int| 0 <= j < w10_i ==> (#[trigger] old(self).sgroups()[j]).stag() != tag,
+            decreases w10_v.len() - w10_i,
+'''}],
+     'proofs': [
+         {'at_start': True, 'text': '''let ghost gs0 = old(self).sgroups();
+        let ghost a0 = abs_groups(*old(self));
+        let ghost at0 = attribute;
+'''},
+         {'at_end': True, 'text': ''';
+        proof {
+            let i = w10_i as int;
+            assert forall|j: int| 0 <= j < i implies (#[trigger] a0[j]).0 != tag by { assert(gs0[j].stag() != tag); }
+            crate::verif_lemmas::lemma_first_of(a0, tag, i);
+            let m0 = if i < gs0.len() { gs0[i].sattrs() } else { Map::<String, IppAttribute>::empty() };
+            assert forall|kk: String| kk@ == at0.sname() implies
+                abs_attrs(#[trigger] m0.insert(kk, at0)) =~= abs_attrs(m0).insert(at0.sname(), aval(at0.sval())) by {
+                crate::verif_lemmas::lemma_abs_attrs_insert(m0, kk, at0);
+            }
+            assert(abs_attrs(Map::<String, IppAttribute>::empty()) =~= Map::<Seq<char>, AVal>::empty());
+        }
+'''},
+     ]},
     {'op': 'fn', 'path': 'IppAttributes::to_bytes', 'ret': 'r',
      'bind': {'BUF': r'let\s+mut\s+(\w+)\s*=\s*BytesMut::(?:new|with_capacity)\s*\('},
      # no panic / overflow for every message whose values are encodable at all (groups_sizes: usize sums of string lengths);
